@@ -295,7 +295,16 @@ def check_sabre(case) -> Outcome:
     circuit = S.build_circuit(spec)
     if case.get('part'):
         from bqskit.passes.partitioning.quick import QuickPartitioner
-        _drive(QuickPartitioner(int(case['part'])), circuit, PassData(circuit))
+        try:
+            _drive(QuickPartitioner(int(case['part'])), circuit,
+                   PassData(circuit))
+        except RuntimeError as e:
+            # input preparation failed inside the partitioner (not a mapping
+            # pass): nothing to judge here
+            out.label('prep:QuickPartitioner-raised(excluded)')
+            out.excluded = 1
+            del e
+            return out
         out.label('partitioned')
     cin = circuit.copy()
     U_in = refsim.circuit_unitary(cin)
@@ -559,6 +568,7 @@ class _PortCompiler:
             def _start_server(self, num_workers, runtime_log_level,
                               worker_port, num_blas_threads):
                 launch = (
+                    'import warnings; warnings.filterwarnings("ignore"); '
                     'from bqskit.runtime.attached import '
                     'start_attached_server; start_attached_server('
                     f'{num_workers}, port={port}, worker_port={worker_port}, '
@@ -804,6 +814,11 @@ def check_pam(case) -> Outcome:
                 circuit, _pam_workflow(case, model), case['seed'],
             )
         except RuntimeError as e:
+            if 'Traceback' not in str(e):
+                # the runtime itself went away (not a pass raising): nothing
+                # about mapping can be concluded from this case
+                out.label('pam:runtime-lost(inconclusive)')
+                return out
             out.fail(_remote_sig('pam_workflow', str(e)), str(e)[-1500:])
             return out
     finally:
@@ -1101,9 +1116,9 @@ def pam_cases(draw):
 def run_shard(ctx: core.Ctx) -> core.ShardResult:
     global _COMPILER
     res = core.ShardResult()
-    core.run_hypothesis(ctx, res, sabre_cases(), check, ctx.n(250, 4000), sub=0)
+    core.run_hypothesis(ctx, res, sabre_cases(), check, ctx.n(200, 4000), sub=0)
     core.run_hypothesis(
-        ctx, res, sabre_cases(big=True), check, ctx.n(40, 1000), sub=1,
+        ctx, res, sabre_cases(big=True), check, ctx.n(30, 1000), sub=1,
     )
     if ctx.tier == 'thorough':
         # PAM needs synthesis and therefore the real runtime: one private
